@@ -601,13 +601,18 @@ structure Netlist where
   elts : List Elt
   /-- cos / sin of the total angles that are not multiples of 90 degrees (parameters) -/
   rots : RotTable := []
+  /-- the keyword arguments given to `Schematic.draw(**kwargs)`: options of the same name are REMOVED from every component
+      before the layout ("Remove options that may be overridden by arguments to draw"; `style` excepted) -- so
+      `draw(scale=2)` discards a component's own `scale=1.5` -/
+  drawKeys : List String := []
 deriving Repr
 
 def resolveAll (rot : Rat → Rat × Rat → Option (Rat × Rat)) (n : Netlist) : Except String (List String × List Resolved) :=
   match expandAll n.elts with
   | .error m => .error m
   | .ok elts0 =>
-    match splitImplicit elts0 with
+    match splitImplicit (elts0.map fun e =>
+        { e with opts := e.opts.filter (fun kv => !(n.drawKeys.contains kv.1) || kv.1 == "style") }) with
     | .error m => .error m
     | .ok (elts, newNodes) =>
       let all := schNodes elts0 ++ newNodes
